@@ -36,3 +36,10 @@ Definition check_noise_std_case (c : bool * list nat * list atom * list N * list
           end
       end
   end.
+
+(** the body of scalar_noise_std_update / diagonal_noise_std_update on ANY state statistics (y_L2, n_obs | y_L2_per_ft,
+    n_obs_per_ft) and ANY collected statistics:
+      summed = sum_dim(-2 * y_x_model + model_x_model[, but_dim=LVL_FT]); noise_var = (y_l2 + summed) / n_obs.float();
+      return compute_std_from_variance(noise_var, varname="noise_std", tol=cls.tol_noise_variance) *)
+Definition noise_rule (d : dimspec) (tol : atom) (p : tensor atom * tensor N) (s : stats) : res std_outcome :=
+  rmap (std_from_variance tol) (bind (noise_summed_stats d s) (noise_var_of p)).
